@@ -27,6 +27,7 @@ TranslateError.
 from __future__ import annotations
 
 import ast
+import re
 from typing import Any
 
 from harness.common import TranslateError, src_text
@@ -643,9 +644,27 @@ def translate_keytables() -> tuple[str, dict]:
         'Definition kt_reader_keys : list (string * list (string * string)) := [',
         ';\n'.join(f'  ({coq_s(n)}, {coq_pairs(k)})' for n, k in reader_out), '].',
         f'Definition kt_mixed : list string := {coq_strs(sorted(set(mixed_out)))}.',
+        '(* the named booleans of the check (defined here so that the check needs no string literals of its own) *)',
+    ]
+    ob_defs: dict[str, str] = {}
+
+    def ident(q: str) -> str:
+        return re.sub(r'[^A-Za-z0-9]+', '_', q).strip('_')
+    for n, _, _, _ in tables_out:
+        ob_defs[f'table:{n}'] = f'kt_ok_table_{ident(n)}'
+        lines.append(f'Definition kt_ok_table_{ident(n)} : bool := dedup_ok_named kt_tables {coq_s(n)}.')
+    for n, _ in classes_out:
+        ob_defs[f'class:{n}'] = f'kt_ok_class_{ident(n)}'
+        lines.append(f'Definition kt_ok_class_{ident(n)} : bool := class_ok_named kt_classes {coq_s(n)}.')
+    lines += [
+        'Definition kt_ok_bone_tables_present : bool := has_table kt_tables "smd.Mesh.export:bone_indexes" && has_class kt_classes "smd.Bone".',
+        'Definition kt_ok_bone_eq_is_name : bool := class_eq_is kt_classes "smd.Bone" key_name_exact.',
+        'Definition kt_ok_smd_reader_key : bool := reader_key_is kt_reader_keys "smd.Mesh.parse_smd" key_name_exact.',
+        'Definition kt_ok_cmdseq_reader_key : bool := reader_key_is kt_reader_keys "cmdseq.parse" key_value_exact.',
+        'Definition kt_ok_pool_table_present : bool := has_table kt_tables "choreo.save_scenes_image_sync:add_to_pool" && no_strings kt_mixed.',
         '',
     ]
-    side = {'classes': {n: coq_mode(m) for n, m in classes_out}, 'tables': {n: coq_spec(s) for n, _, _, s in tables_out},
+    side = {'obligation_defs': ob_defs, 'classes': {n: coq_mode(m) for n, m in classes_out}, 'tables': {n: coq_spec(s) for n, _, _, s in tables_out},
             'reader_keys': {n: k for n, k in reader_out}, 'mixed': mixed_out, 'classes_with_hand_written_eq_or_hash': eqhash_census}
     return '\n'.join(lines), side
 
